@@ -47,3 +47,5 @@ Theorem c08_src_final_status : forall results : list (Z * string),
   (forall r, In r results -> In (fst r) ranked_return_codes) ->
   final_status results = fold_left (fun ret r => src_rank_update ret (fst r)) results exit_GOOD.
 Proof. exact src_final_status. Qed.
+Theorem c08_tie_extract_ok_ranked_return_codes : extract_ok_ranked_return_codes = true.
+Proof. exact tie_extract_ok_ranked_return_codes. Qed.
